@@ -37,21 +37,21 @@ def spec_compatible_bd(a, b):
 
 
 class MassProxy:
-    """stands in for `rdkit.Chem.Descriptors` inside gbigsmiles.stochastic: records every HeavyAtomMolWt call"""
+    """records every `HeavyAtomMolWt` call made while a generation is observed.  The observation point is the function of
+    `rdkit.Chem.Descriptors` itself, not an attribute of gbigsmiles.stochastic: the record does not depend on which module of the
+    library asks for the mass (`rdDescriptors.HeavyAtomMolWt(my_mol.mol)` in stochastic.py or `MolGen.weight` in mol_gen.py)"""
 
     def __init__(self, log=None):
         self.calls = []
         self.log = log
+        self.orig = None
 
-    def HeavyAtomMolWt(self, mol):
-        v = _rdD.HeavyAtomMolWt(mol)
+    def HeavyAtomMolWt(self, mol, *a, **k):
+        v = self.orig(mol, *a, **k)
         self.calls.append((float(v), mol.GetNumAtoms()))
         if self.log is not None:
             self.log.append(("mass", float(v), mol.GetNumAtoms()))
         return v
-
-    def __getattr__(self, name):
-        return getattr(_rdD, name)
 
 
 class Observed:
@@ -62,9 +62,9 @@ class Observed:
         self.chooses = []   # dict(kind-less): bds (list of BondDescriptor), bond, result, rng_log_index
 
     def __enter__(self):
-        self._orig_choose_st = _st.choose_compatible_weight
-        self._orig_choose_tk = _tk.choose_compatible_weight
-        self._orig_rd = _st.rdDescriptors
+        self._orig_choose_st = getattr(_st, "choose_compatible_weight", None)
+        self._orig_choose_tk = getattr(_tk, "choose_compatible_weight", None)
+        self.mass.orig = _rdD.HeavyAtomMolWt
         obs = self
 
         def make(orig):
@@ -82,15 +82,19 @@ class Observed:
                 rec["result"] = int(r)
                 return r
             return wrapper
-        _st.choose_compatible_weight = make(self._orig_choose_st)
-        _tk.choose_compatible_weight = make(self._orig_choose_tk)
-        _st.rdDescriptors = self.mass
+        if self._orig_choose_st is not None:
+            _st.choose_compatible_weight = make(self._orig_choose_st)
+        if self._orig_choose_tk is not None:
+            _tk.choose_compatible_weight = make(self._orig_choose_tk)
+        _rdD.HeavyAtomMolWt = self.mass.HeavyAtomMolWt
         return self
 
     def __exit__(self, *a):
-        _st.choose_compatible_weight = self._orig_choose_st
-        _tk.choose_compatible_weight = self._orig_choose_tk
-        _st.rdDescriptors = self._orig_rd
+        if self._orig_choose_st is not None:
+            _st.choose_compatible_weight = self._orig_choose_st
+        if self._orig_choose_tk is not None:
+            _tk.choose_compatible_weight = self._orig_choose_tk
+        _rdD.HeavyAtomMolWt = self.mass.orig
         return False
 
 
